@@ -5,6 +5,7 @@ package checks
 import (
 	"encoding/json"
 	"fmt"
+	"os"
 	"reflect"
 	"strings"
 
@@ -292,6 +293,9 @@ func c12Run(c *engine.Ctx) {
 	scs := scen.Scenarios()
 	for si, sc := range scs {
 		si, name := si, sc.Name
+		if f := os.Getenv("VERIF_C12_SCEN"); f != "" && !strings.HasPrefix(name, f+" ") {
+			continue // development aid: explore one scenario only
+		}
 		bound := 2
 		if len(sc.Threads) > 2 {
 			bound = 1
@@ -380,7 +384,9 @@ func c12Run(c *engine.Ctx) {
 			}
 		}
 	}
-	c12Sequential(c)
+	if os.Getenv("VERIF_C12_SCEN") == "" {
+		c12Sequential(c)
+	}
 }
 
 // ---------------------------------------------------------------------------------------
